@@ -292,6 +292,9 @@ func (vt *Model) decrqm(pd int) {
 		case false:
 			ps = 2
 		}
+	case 2027:
+		// Text is always segmented into grapheme clusters: permanently set
+		ps = 3
 	}
 	fmt.Fprintf(vt.pty, "\x1B[?%d;%d$y", pd, ps)
 }
